@@ -29,7 +29,7 @@ def run(ctx):
     model = build_model()
     impl = build_impl()
     setup_builtin(impl)
-    n = 900 if ctx.tier == "quick" else 15000
+    n = 600 if ctx.tier == "quick" else 15000
     raw = []
     for name, text in corpus_texts("C13"):
         # corpus file: chunks separated by a line `---`, optionally followed by `=== moved` and the moved text
